@@ -1,4 +1,4 @@
-(* Property C05 (b), lock discipline: an executable CHECKER for lock programs (Spec/LockSpec.v).
+(* Property C05 (b), lock discipline: an executable CHECKER for lock programs (Spec/LockProgSpec.v).
    [cb sem b s] runs the skeleton b abstractly from the lock state s: it follows every branch,
    runs a loop body once and requires that an iteration leaves the lock state unchanged, checks
    every event against the discipline (a blocking event only under semaphores, an acquisition
@@ -8,7 +8,7 @@
    Proofs/LockProgP.v proves the checker sound for EVERY execution of the program.
    No proofs here. *)
 From Coq Require Import ZArith List Bool.
-From Verif Require Import Spec.LockSpec.
+From Verif Require Import Spec.LockProgSpec.
 Import ListNotations.
 Local Open Scope Z_scope.
 
